@@ -171,13 +171,7 @@ def run(ck):
         if oo.split(" || ")[0].replace("allow", "x::ow") != bb.split(" || ")[0].replace("allow", "x::ow") and False:
             pass
         # 3. model: level of every diagnostic from its recorded scope and the attributes the AST shows
-        ents, idx, fattrs = ents_of(files_sx)
-        ds = []
-        for d in diags:
-            f = d["span"].split(":")[0].replace("string-", "") if d["span"] != "-" else "-"
-            sc = idx.get(d["scope"], None) if d["scope"] else None
-            ds.append("%s:%s:%s" % ("E" if d["level"] == "Error" and d["code"].startswith("E") else d["code"], f, "-" if sc is None else sc))
-        ml = "lint %s F %s E %s D %s" % (",".join(cli) or "-", " ".join(",".join(a) or "-" for a in fattrs), " ".join("%s:%s" % (",".join(a) or "-", "-" if p is None else p) for a, p in ents), " ".join(ds))
+        ml = model_line(files_sx, diags, cli)
         mlines.append(ml)
         meta.append((line, [d["level"] for d in diags]))
     m = core.run_model("lints", mlines, chunk=2000)
@@ -186,10 +180,110 @@ def run(ck):
         if got != levels:
             ck.violation("placement-matrix", "level-differs-from-model", bytes.fromhex(line.split(" ")[2]).decode(), " ".join(got), " ".join(levels), detail=ml, kind="correspondence")
     errors_untouched(ck)
+    random_programs(ck)
     ck.samples.append({"stream": "placement-matrix", "case": bytes.fromhex(lines[len(lines) // 2].split(" ")[2]).decode(), "options": lines[len(lines) // 2].split(" ")[1], "model_input": mlines[len(mlines) // 2], "model": m[len(m) // 2], "impl": o[len(lines) // 2][-300:]})
     ck.extra["exhaustive"] = True
     ck.extra["rule"] = "%d scenarios (lint kind x position) x every placement x 5 argument sets (+ lower/upper-case command-line values, + random double placements): %d template programs; distinct by program text and options" % (len(SCENARIOS), len(cases))
     ck.partial.append("DuplicateFile (no span, no scope, command line only) is exercised by the file-set check (C17); the generator request is compared in C08")
+
+
+def model_line(files_sx, diags, cli):
+    """input of the Coq model for one compilation: command-line allow list, file attributes, entity table (allow arguments, parent),
+    and every diagnostic with the file and entity it was reported for"""
+    ents, idx, fattrs = ents_of(files_sx)
+    ds = []
+    for d in diags:
+        f = d["span"].split(":")[0].replace("string-", "") if d["span"] != "-" else "-"
+        sc = idx.get(d["scope"], None) if d["scope"] else None
+        ds.append("%s:%s:%s" % ("E" if d["level"] == "Error" and d["code"].startswith("E") else d["code"], f, "-" if sc is None else sc))
+    return "lint %s F %s E %s D %s" % (",".join(cli) or "-", " ".join(",".join(a) or "-" for a in fattrs), " ".join("%s:%s" % (",".join(a) or "-", "-" if p is None else p) for a, p in ents), " ".join(ds))
+
+
+def random_programs(ck):
+    """generated programs with deprecated definitions, doc comments that raise each kind of lint and allow attributes scattered over
+    every kind of element, file and the command line: the level of every diagnostic is what the model computes from the
+    attributes the AST shows, and replacing `allow` by a foreign attribute changes nothing but levels"""
+    import random
+    from .. import slicegen
+    rng = ck.rng
+    n = 250 if ck.tier == "quick" else 6000
+    docs = [" {@link Nope}", " @foo bar", " @param nosuch: x", " text {@link Missing::Thing} more", " @returns nothing", " @throws Nope: never"]
+    lines, base_lines, meta = [], [], []
+    for _ in range(n):
+        g = slicegen.Gen(random.Random(rng.randrange(1 << 60)), nfiles=rng.choice([1, 2, 2, 3]), depth=2, foreign_attrs=False)
+        prog = g.program()
+        p_allow, p_doc, p_dep = rng.choice([0.1, 0.3, 0.6]), rng.choice([0.2, 0.5]), rng.choice([0.3, 0.6])
+
+        def allow():
+            if rng.random() > p_allow:
+                return []
+            k = rng.choice([1, 1, 1, 2, 3])
+            return [("allow", [rng.choice(LINTS + ["All"]) for _ in range(k)])]
+
+        def doc():
+            return [rng.choice(docs)] if rng.random() < p_doc else None
+        for f in prog["files"]:
+            f["fattrs"] = allow()
+            f["mattrs"] = []
+            for d in f["defs"]:
+                d["attrs"] = allow() + ([("deprecated", [])] if rng.random() < p_dep else [])
+                d["doc"] = doc()
+                members = []
+                if d["kind"] == "struct":
+                    members = d["fields"]
+                elif d["kind"] == "enum":
+                    for e in d["enumerators"]:
+                        e["attrs"] = allow()
+                        e["doc"] = doc()
+                        members += e["fields"] or []
+                elif d["kind"] == "interface":
+                    for o in d["ops"]:
+                        o["attrs"] = allow()
+                        o["doc"] = doc()
+                        for m in o["params"] + (o["returns"] if len(o["returns"]) != 1 else []):
+                            m["attrs"] = allow()
+                for m in members:
+                    m["attrs"] = allow()
+                    m["doc"] = doc()
+        cli = [rng.choice(LINTS + ["All", "all", "deprecated"]) for _ in range(rng.choice([0, 0, 0, 1, 2]))]
+        texts = slicegen.render(prog)
+        opts = ",".join("A:" + c for c in cli) or "-"
+        lines.append("dump %s %s" % (opts, " ".join(hx(t) for t in texts)))
+        base_lines.append("dump - %s" % " ".join(hx(t.replace("[allow(", "[x::ow(")) for t in texts))
+        meta.append((texts, cli))
+    o = core.run_impl("dump", lines, chunk=100, timeout=180)
+    ob = core.run_impl("dump", base_lines, chunk=100, timeout=180)
+    ck.stream("random-programs", description="generated programs (1-3 files, every definition kind) with deprecated definitions, doc comments raising each lint kind on definitions, fields, "
+              "operations and enumerators, allow attributes with 1-3 arguments on files, definitions, operations, enumerators, fields, parameters and return members, and a command-line allow list "
+              "(incl. other-case spellings); observables: level of every diagnostic against the model; all diagnostics and the AST against the same program with allow replaced by a foreign attribute")
+    mlines, mmeta = [], []
+    nd = {"Warning": 0, "Allowed": 0, "Error": 0}
+    for (texts, cli), line, oo, bb in zip(meta, lines, o, ob):
+        files_sx, diags = split_dump(oo)
+        bfiles, bdiags = split_dump(bb)
+        shown = "\n// ---- next file\n".join(texts) + "\n// command line: " + " ".join("-A " + c for c in cli)
+        ck.count("random-programs", line, kind="files=%d,cli=%d" % (len(texts), len(cli)))
+        if files_sx is None or bfiles is None:
+            ck.violation("random-programs", "crash", shown, "a result", (oo if files_sx is None else bb)[:200])
+            continue
+        for d in diags:
+            nd[d["level"]] = nd.get(d["level"], 0) + 1
+        strip = lambda ds: [(d["code"], d["span"], d["msg"], tuple(d["notes"])) for d in ds]
+        if strip(diags) != strip(bdiags) or any(d["level"] != b["level"] for d, b in zip(diags, bdiags) if d["code"].startswith("E") and d["code"][1:].isdigit()):
+            ck.violation("random-programs", "suppression-changes-other-diagnostics", shown, repr(strip(bdiags))[:300], repr(strip(diags))[:300])
+            continue
+        if any(b["level"] == "Allowed" for b in bdiags):
+            ck.violation("random-programs", "silenced-without-allow", shown, "no Allowed diagnostic without allow", repr([(b["code"], b["level"]) for b in bdiags])[:300])
+        mlines.append(model_line(files_sx, diags, [c for c in cli]))
+        mmeta.append((shown, [d["level"] for d in diags]))
+    m = core.run_model("lints", mlines, chunk=2000)
+    for ml, mo, (shown, levels) in zip(mlines, m, mmeta):
+        got = [x for x in mo.split(" | ")[0].split(" ") if x] if mo else []
+        if got != levels:
+            ck.violation("random-programs", "level-differs-from-model", shown, " ".join(got), " ".join(levels), detail=ml, kind="correspondence")
+    ck.extra["random_programs_diagnostic_levels"] = nd
+    if nd["Allowed"] < n // 10 or nd["Warning"] < n // 10:
+        ck.violation("random-programs", "generator-vacuous", "levels seen: %r" % nd, "both silenced and reported lints in quantity", repr(nd), kind="correspondence")
 
 
 ERROR_PROGRAMS = [
